@@ -278,6 +278,11 @@ fn visit_par<T: It>(item: &mut T) -> (Option<u32>, String) {
     item.bump();
     (idx, s)
 }
+fn spin_a_little() {
+    let mut x = 0u64;
+    for i in 0..400u64 { x = std::hint::black_box(x.wrapping_add(i)); }
+    std::hint::black_box(x);
+}
 fn finish_par(mut v: Vec<(Option<u32>, String)>, out: &mut String) {
     v.sort_by_key(|t| t.0); // stable
     let _ = write!(out, "{}", v.len());
@@ -740,7 +745,7 @@ fn caps(out: &mut String) {
 #[derive(Clone, Copy, PartialEq, Debug)]
 pub enum Mode { Seq, Lend, LendFe, LendGet, Tree, Par, Unc }
 #[derive(Clone, Copy, PartialEq, Debug)]
-pub enum Via { Foreach, Map, Collect, Count }
+pub enum Via { Foreach, Map, Collect, Count, FindFirst(u32), FindLast(u32) }
 #[derive(Clone, Copy, Debug)]
 pub enum Probe { H(u32, i32), U(u32) }
 
@@ -906,6 +911,16 @@ macro_rules! arm {
             // `count()` is one more way to consume a parallel join (separate pass, see `exec_op`)
             let c = pool.install(|| j.par_join().count());
             let _ = write!($out, "{}", c);
+        } else if let Via::FindFirst(t) = $op.via {
+            // early-exit consumers (separate passes, read-only joins only): the first member with index >= t; members
+            // below t are made a little slower, so that leaves further right tend to find their match first
+            let r = pool.install(|| j.par_join().map(|item| { let i = item.reveal(); if i.map_or(false, |i| i < t) { spin_a_little(); } i })
+                .find_first(move |i| i.map_or(false, |i| i >= t)));
+            let _ = write!($out, "{}", match r { Some(Some(i)) => i.to_string(), _ => "-".to_string() });
+        } else if let Via::FindLast(t) = $op.via {
+            let r = pool.install(|| j.par_join().map(|item| { let i = item.reveal(); if i.map_or(false, |i| i > t) { spin_a_little(); } i })
+                .find_last(move |i| i.map_or(false, |i| i <= t)));
+            let _ = write!($out, "{}", match r { Some(Some(i)) => i.to_string(), _ => "-".to_string() });
         } else {
         let v: Vec<(Option<u32>, String)> = match $op.via {
             Via::Foreach => {
@@ -921,7 +936,7 @@ macro_rules! arm {
                 let items = pool.install(|| j.par_join().collect::<Vec<_>>());
                 items.into_iter().map(|mut item| visit_par(&mut item)).collect()
             }
-            Via::Count => unreachable!(),
+            Via::Count | Via::FindFirst(_) | Via::FindLast(_) => unreachable!(),
         };
         finish_par(v, $out);
         }
@@ -1006,6 +1021,24 @@ fn exec_op(h: &mut H, op: &JoinOp, out: &mut String) {
     if let (Some(c), true) = (counted, r.is_ok()) {
         let delivered = out[mark..].split_whitespace().next().and_then(|t| t.parse::<usize>().ok());
         if delivered.is_some() && delivered != Some(c) { let _ = write!(out, " !count={}", c); }
+    }
+    // read-only parallel joins, early-exit consumers: `find_first` / `find_last` with index thresholds around the places
+    // where the producer splits; printed as `!ff<t>=<i>` / `!fl<t>=<i>` tokens (`-` = nothing found), judged by the driver
+    if op.mode == Mode::Par && op.members_read_only && r.is_ok() {
+        let n = h.n.max(1);
+        let mut ts: Vec<u32> = vec![n / 2, (n / 2).saturating_sub(1), n / 4, n - n / 4, 63, 64, 4095, 4096];
+        ts.retain(|t| *t < n + 2);
+        ts.sort(); ts.dedup();
+        for t in ts {
+            for last in [false, true] {
+                let mut opf = op.clone();
+                opf.via = if last { Via::FindLast(t) } else { Via::FindFirst(t) };
+                let mut tmp = String::new();
+                let rc = catch_unwind(AssertUnwindSafe(|| (sh.run)(h, &opf, &mut tmp)));
+                let got = if rc.is_ok() { tmp.trim().to_string() } else { "panic".to_string() };
+                let _ = write!(out, " !{}{}={}", if last { "fl" } else { "ff" }, t, got);
+            }
+        }
     }
     let hook_missing = out[mark..].starts_with("nohook");
     let with_post = matches!(op.mode, Mode::Seq | Mode::Lend | Mode::LendFe | Mode::Par | Mode::Tree);
